@@ -178,6 +178,7 @@ type Observed struct {
 	RespType   reflect.Type // dynamic type of the emitted response payload (nil: no item)
 	RespOut    string
 	Panic      string
+	Name       string // api name reported in the item header
 }
 
 // Observe sends a header-only request and response through the real Dissect.
@@ -188,6 +189,7 @@ func Observe(apiKey, version int16) Observed {
 		req, resp, ok := ItemParts(r.Items[0])
 		if ok {
 			o.Registered = true
+			o.Name = req.ApiKeyName
 			if req.Payload != nil {
 				o.ReqType = reflect.TypeOf(req.Payload).Elem()
 			}
